@@ -28,6 +28,8 @@ def obligations(ctx, tier):
         out += digits.add_sub_rows(K, PROP)
         for A in ADTS:
             sg = is_signed(A)
+            from . import c18
+            out += c18.trait_value_rows(K, A, PROP, stems={"add", "sub", "neg"})     # num-traits entry points of the same operations
             out += arith.mode_rows(K, PROP, A, "add", "TT", lambda W, a, b: a + b, "overflow(add)")
             out += arith.mode_rows(K, PROP, A, "sub", "TT", lambda W, a, b: a - b, "overflow(sub)")
             if sg:
